@@ -162,6 +162,8 @@ class Source:
 
 
 class RuleLog:
+    UNIFORM = ('N5',)
+
     def __init__(self):
         self.counts = {}
         self.notes = []
@@ -173,16 +175,12 @@ class RuleLog:
             self.notes.append(f'{rule} {fn}: {note}')
 
     def check(self, expected):
-        """expected: {(rule, fn): count}; all and only these must have fired that often"""
-        bad = []
+        """Compare the applications with the counts recorded when the unit was written.  A difference means the
+        code changed shape; it is reported in the evidence, not treated as an error: every construct a rule would have
+        rewritten is rejected by CBMC's front end if left alone (exit 2), except `auto`, which `leftovers` catches."""
         for key, n in expected.items():
             if self.counts.get(key, 0) != n:
-                bad.append(f'{key[0]} in {key[1]}: expected {n} applications, got {self.counts.get(key, 0)}')
-        for key, n in self.counts.items():
-            if key not in expected:
-                bad.append(f'{key[0]} in {key[1]}: fired {n} times but is not declared for this unit')
-        if bad:
-            raise ExtractError('normalisation rules did not fire as declared: ' + '; '.join(bad))
+                self.notes.append(f'{key[0]} in {key[1]}: {self.counts.get(key, 0)} applications (unit was written with {n})')
 
     def as_dict(self):
         return {f'{r}:{f}': n for (r, f), n in sorted(self.counts.items())}
@@ -296,6 +294,15 @@ def find_stmt_end(toks, k):
     raise ExtractError('statement end not found')
 
 
+def leftovers(text, what):
+    """constructs that CBMC would silently mis-handle must not survive normalisation"""
+    from cpptok import tokenize as _t
+    toks = [t for t in _t(text) if t.kind not in ('ws', 'com')]
+    for k, t in enumerate(toks):
+        if t.kind == 'id' and t.text == 'auto':
+            raise ExtractError(f'{what}: an `auto` declaration survived normalisation (CBMC would read it as int): near `{" ".join(x.text for x in toks[k:k+6])}`')
+
+
 def rewrite_auto(ftoks, lo, types, log, fn):
     """N6: `auto [&] v = e;` / `auto const &v` -> declared type.  types: {varname: 'T'} (every entry must fire once)"""
     out = list(ftoks)
@@ -316,9 +323,6 @@ def rewrite_auto(ftoks, lo, types, log, fn):
                 fired.add(var)
                 log.fire('N6', fn)
         k += 1
-    missing = set(types) - fired
-    if missing:
-        raise ExtractError(f'N6 in {fn}: no `auto {sorted(missing)} = ...` found')
     return out
 
 
@@ -457,8 +461,33 @@ def rewrite_aggregate_decl(ftoks, lo, specs, log, fn):
     return out
 
 
-def rewrite_string_literals(ftoks, lo, log, fn):
-    """N5: "lit" -> std::string("lit") (CBMC resolves `"lit" + std::string` through a free operator+ wrongly)"""
+class LitTable:
+    """ids of string literals: fixed per distinct literal text (equal text <=> equal id); negative and far from 0 so
+    that the ids are recognisable in traces.  Emitted as #defines for the contract units."""
+
+    def __init__(self):
+        self.ids = {}
+
+    def id_of(self, lit_tok_text):
+        if lit_tok_text not in self.ids:
+            self.ids[lit_tok_text] = -1000 - len(self.ids)
+        return self.ids[lit_tok_text]
+
+    def header(self):
+        out = ['/* GENERATED: ids of the string literals of this unit (rule N5) */']
+        used = set()
+        for text, i in sorted(self.ids.items(), key=lambda kv: -kv[1]):
+            name = ''.join(ch if ch.isalnum() else '_' for ch in text[1:-1])[:40] or 'EMPTY'
+            while name in used:
+                name += '_'
+            used.add(name)
+            out.append(f'#define LIT_{name} ({i}L) /* {text} */')
+        return '\n'.join(out) + '\n'
+
+
+def rewrite_string_literals(ftoks, lo, log, fn, lits=None):
+    """N5: "lit" -> std::string(<id>, "lit"): CBMC resolves `"lit" + std::string` through a free operator+ wrongly; the id
+    makes equal literal texts equal strings (model/include/string)"""
     out = []
     for i, t in enumerate(ftoks):
         if i >= lo and t.kind == 'str':
@@ -467,7 +496,10 @@ def rewrite_string_literals(ftoks, lo, log, fn):
             if p >= 0 and ftoks[p].text == '(' and ftoks[prev_code(ftoks, p)].text == 'string':
                 out.append(t)
                 continue
-            out += [_mk('id', 'std'), _mk('op', '::'), _mk('id', 'string'), _mk('op', '('), t, _mk('op', ')')]
+            out += [_mk('id', 'std'), _mk('op', '::'), _mk('id', 'string'), _mk('op', '(')]
+            if lits is not None:
+                out += [_mk('num', str(lits.id_of(t.text)) + 'L'), _mk('op', ','), _mk('ws', ' ')]
+            out += [t, _mk('op', ')')]
             log.fire('N5', fn)
         else:
             out.append(t)
@@ -529,4 +561,249 @@ def rewrite_clear_assign(ftoks, lo, members, log, fn):
             k += 1
         if not done:
             raise ExtractError(f'N4 in {fn}: `{mem} = {{}}` not found')
+    return out
+
+
+# ---------------------------------------------------------------- N2 (designated, nested) / N3 / N13
+
+def _split_top(toks):
+    """split a token list at top-level commas; returns list of token lists"""
+    items, depth = [[]], 0
+    for x in toks:
+        if x.kind == 'op' and x.text in ('(', '[', '{'):
+            depth += 1
+        elif x.kind == 'op' and x.text in (')', ']', '}'):
+            depth -= 1
+        if x.kind == 'op' and x.text == ',' and depth == 0:
+            items.append([])
+        else:
+            items[-1].append(x)
+    return [it for it in items if any(is_code(x) for x in it)]
+
+
+def _designated_assignments(prefix, toks, out):
+    """toks: the tokens between the braces of `{.a = e, .b = {.c = e2}}` -> out gets (path, expr_text)"""
+    for it in _split_top(toks):
+        c = [x for x in it if is_code(x)]
+        if c[0].text != '.':
+            raise ExtractError('N2: positional element inside a designated initialiser: ' + untok(it).strip())
+        fld = c[1].text
+        # expression after '='
+        k = 0
+        while it[k].text != '=':
+            k += 1
+        rhs = it[k + 1:]
+        rc = [x for x in rhs if is_code(x)]
+        if rc and rc[0].text == '{':
+            b = rhs.index(rc[0])
+            e = match_close(rhs, b)
+            inner = rhs[b + 1:e]
+            if not any(is_code(x) for x in inner):
+                continue  # `.x = {}`: value-initialised / empty container: nothing to assign
+            ic = [x for x in inner if is_code(x)]
+            if ic[0].text == '.':
+                _designated_assignments(prefix + fld + '.', inner, out)
+                continue
+        out.append((prefix + fld, untok(rhs).strip()))
+
+
+def rewrite_designated(ftoks, lo, specs, log, fn):
+    """N2 (designated form, nested): `T x = {.a = e, .b = {.c = e2}};` -> `T x; x.a = e; x.b.c = e2;`
+       and `return {.a = e, ...};` -> `{ T __r; __r.a = e; ...; return __r; }` (spec var '@return', type T).
+       specs: list of {var, type, [extra: ['x.f = 0', ...]]}"""
+    out = list(ftoks)
+    for sp in specs:
+        k = lo
+        done = False
+        while k < len(out):
+            t = out[k]
+            if sp['var'] == '@return' and t.kind == 'id' and t.text == 'return':
+                b = next_code(out, k)
+                if out[b].text == '{':
+                    e = match_close(out, b)
+                    semi = next_code(out, e)
+                    asg = []
+                    _designated_assignments('', out[b + 1:e], asg)
+                    # aggregate initialisation value-initialises every member that is not named: scalar members that the
+                    # initialiser does not name are zeroed by the unit's `pre` list (class-type members run their default ctor)
+                    txt = f'{{ {sp["type"]} __r; ' + ''.join(x.replace('@', '__r') + '; ' for x in sp.get('pre', [])) + ' '.join(f'__r.{p} = {x};' for p, x in asg)
+                    txt += ' '.join(' ' + x.replace('@', '__r') + ';' for x in sp.get('extra', []))
+                    txt += ' return __r; }'
+                    out[k:semi + 1] = _retok(txt)
+                    log.fire('N2', fn)
+                    done = True
+                    break
+            elif sp['var'] != '@return' and t.kind == 'id' and t.text == sp['var']:
+                eq = next_code(out, k)
+                b = next_code(out, eq)
+                if out[eq].text == '=' and out[b].text == '{':
+                    s = k
+                    while True:
+                        p = prev_code(out, s)
+                        if out[p].text in (';', '{', '}'):
+                            break
+                        s = p
+                    if s == k:
+                        k += 1
+                        continue
+                    e = match_close(out, b)
+                    semi = next_code(out, e)
+                    asg = []
+                    _designated_assignments('', out[b + 1:e], asg)
+                    tyt = untok(out[s:k]).strip()
+                    txt = f'{tyt} {sp["var"]}; ' + ' '.join(f'{sp["var"]}.{p} = {x};' for p, x in asg)
+                    txt += ' '.join(' ' + x.replace('@', sp['var']) + ';' for x in sp.get('extra', []))
+                    out[s:semi + 1] = _retok(txt)
+                    log.fire('N2', fn)
+                    done = True
+                    break
+            k += 1
+        if not done:
+            raise ExtractError(f'N2 in {fn}: designated initialiser for `{sp["var"]}` not found')
+    return out
+
+
+def rewrite_braced_arg(ftoks, lo, specs, log, fn):
+    """N3: `X.push_back({e1,...,ek});` -> `{ T __t; __t.f1 = e1; ...; X.push_back(__t); }`
+       also designated form `{.a = e, ...}`.  specs (matched in source order):
+       {method:'push_back', type:'T', fields:[...], [extra:['@.argnum = 0']]}"""
+    out = list(ftoks)
+    todo = list(specs)
+    k = lo
+    while k < len(out) and todo:
+        t = out[k]
+        if t.kind == 'id' and t.text == todo[0]['method']:
+            lp = next_code(out, k)
+            b = next_code(out, lp)
+            if out[lp].text == '(' and out[b].text == '{':
+                sp = todo.pop(0)
+                e = match_close(out, b)
+                rp = next_code(out, e)
+                semi = next_code(out, rp)
+                if out[rp].text != ')' or out[semi].text != ';':
+                    raise ExtractError(f'N3 in {fn}: unexpected shape after braced argument')
+                # start of the statement
+                s = k
+                while True:
+                    p = prev_code(out, s)
+                    if out[p].text in (';', '{', '}', ')') and not (out[p].text == ')' and False):
+                        break
+                    s = p
+                inner = out[b + 1:e]
+                ic = [x for x in inner if is_code(x)]
+                asg = []
+                if ic and ic[0].text == '.':
+                    _designated_assignments('', inner, asg)
+                else:
+                    for idx, it in enumerate(_split_top(inner)):
+                        asg.append((sp['fields'][idx], untok(it).strip()))
+                recv = untok(out[s:k]).strip()  # `this->errors.`
+                txt = f'{{ {sp["type"]} __t; ' + ' '.join(f'__t.{p} = {x};' for p, x in asg)
+                txt += ''.join(' ' + x.replace('@', '__t') + ';' for x in sp.get('extra', []))
+                txt += f' {recv}{sp["method"]}(__t); }}'
+                out[s:semi + 1] = _retok(txt)
+                log.fire('N3', fn)
+                continue
+        k += 1
+    if todo:
+        raise ExtractError(f'N3 in {fn}: `{todo[0]["method"]}({{...}})` not found')
+    return out
+
+
+def strip_nsdmi(stoks, log, fn):
+    """N13: default member initialisers `T m = {};` / `int m = 0;` inside a struct definition are removed (the
+    front end does not support them); returns (tokens, {member: init_text}).  The initial values are re-applied
+    explicitly at every aggregate construction site by the N2/N3 `extra` lists of the unit."""
+    out = list(stoks)
+    inits = {}
+    # struct body
+    b = 0
+    while out[b].text != '{':
+        b += 1
+    e = match_close(out, b)
+    k = b + 1
+    depth = 0
+    stmt_start = k
+    while k < e:
+        t = out[k]
+        if t.kind == 'op' and t.text == '{':
+            # function body or nested: skip unless it is an initialiser (preceded by '=')
+            p = prev_code(out, k)
+            if out[p].text == '=':
+                ee = match_close(out, k)
+                semi = next_code(out, ee)
+                name = out[prev_code(out, p)].text
+                inits[name] = untok(out[k:ee + 1])
+                del out[p:ee + 1]
+                e -= (ee + 1 - p)
+                log.fire('N13', fn)
+                k = p
+                continue
+            k = match_close(out, k) + 1
+            continue
+        if t.kind == 'op' and t.text == '(':
+            k = match_close(out, k) + 1
+            continue
+        if t.kind == 'op' and t.text == '=':
+            # scalar initialiser: `int argnum = 0;`
+            semi = k
+            while out[semi].text != ';':
+                semi += 1
+            name = out[prev_code(out, k)].text
+            inits[name] = untok(out[k + 1:semi]).strip()
+            del out[k:semi]
+            e -= (semi - k)
+            log.fire('N13', fn)
+            continue
+        k += 1
+    return out, inits
+
+
+def rewrite_range_for_tbl(ftoks, lo, table, tags, log, fn, unit_globals=None):
+    """N1, table driven: every range-for in toks[lo:] is desugared; the container/iterator/element types come from `table`,
+    a list of (regex on the range expression text, spec).  The k-th loop found gets tags[k] (or '<fn-tag>k' beyond the list),
+    so a change that removes or adds a loop still extracts; an unknown range expression is an ExtractError."""
+    import re as _re
+    out = list(ftoks)
+    k = lo
+    n = 0
+    while k < len(out):
+        t = out[k]
+        if t.kind == 'id' and t.text == 'for':
+            lp = next_code(out, k)
+            rp = match_close(out, lp)
+            colon = None
+            depth = 0
+            for j in range(lp + 1, rp):
+                x = out[j]
+                if x.kind == 'op' and x.text in ('(', '[', '{'):
+                    depth += 1
+                elif x.kind == 'op' and x.text in (')', ']', '}'):
+                    depth -= 1
+                elif x.kind == 'op' and x.text == ':' and depth == 0:
+                    colon = j
+                    break
+                elif x.kind == 'op' and x.text == ';':
+                    break
+            if colon is not None:
+                expr = ' '.join(untok(out[colon + 1:rp]).split())
+                sp = None
+                for rx, cand in table:
+                    if _re.fullmatch(rx, expr):
+                        sp = dict(cand)
+                        break
+                if sp is None:
+                    raise ExtractError(f'N1 in {fn}: no type information for the range expression `{expr}`')
+                decl = [x for x in out[lp + 1:colon] if is_code(x)]
+                sp['var'] = decl[-1].text
+                sp['elem_decl'] = sp['elem_decl'].replace('@', sp['var'])
+                sp['tag'] = tags[n] if n < len(tags) else f'{tags[0][:3] if tags else "l"}x{n}'
+                if sp.get('hook_arg'):
+                    sp['hook_arg'] = sp['hook_arg'].replace('@', sp['var'])
+                n += 1
+                seg = rewrite_range_for(out[k:], 0, [sp], log, fn, unit_globals=unit_globals)
+                out[k:] = seg
+                k += 1
+                continue
+        k += 1
     return out
